@@ -1,6 +1,6 @@
 (* Cypher/OrderBy_proofs.v — ORDER BY returns a sorted permutation; SKIP/LIMIT slice it;
    the comparator is a total preorder on flat keys (C20). *)
-From NDB Require Import Base.Bytes Base.Bytes_proofs Cypher.Value Cypher.Compare Cypher.OrderBy Cypher.Compare_proofs.
+From NDB Require Import Base.Bytes Base.Bytes_proofs Cypher.Value Cypher.Compare Cypher.OrderBy Cypher.Compare_proofs Cypher.Order_proofs.
 From Coq Require Import Lia Sorting.Permutation Sorting.Sorted.
 Local Open Scope Z_scope.
 
@@ -137,7 +137,7 @@ Proof.
   intros Ha Hb.
   destruct a as [|x|x|f|s| | | | |]; try discriminate Ha;
   destruct b as [|y|y|g|t| | | | |]; try discriminate Hb; try reflexivity;
-    cbn [flat_key]; unfold order_cmp; cbn [order_nn]; unfold num_order, num_key;
+    cbn [flat_key]; unfold order_cmp; cbn [order_t]; unfold num_order, num_key;
     try (destruct (fkey f)); try (destruct (fkey g)); try reflexivity.
   - cbn. now rewrite ikey_compare.
   - cbn in Ha. unfold str_cmp. cbn. destruct (tp s); [discriminate|reflexivity].
@@ -249,13 +249,6 @@ Proof.
          (VStr [50;48;50;48;45;120]%N).
   vm_compute. repeat split.
 Qed.
-(* K-C20-mapnan: a NaN inside a map makes the map "equal" to maps that are ordered among themselves *)
-Lemma mapnan_not_transitive :
-  exists a b d, order_cmp no_temporal a b = Eq /\ order_cmp no_temporal b d = Eq /\ order_cmp no_temporal a d = Gt.
-Proof.
-  exists (VMap [([97]%N, VFloat 0x1p+1%float)]), (VMap [([97]%N, VFloat nan)]), (VMap [([97]%N, VFloat 0x1p+0%float)]).
-  vm_compute. repeat split.
-Qed.
 Example order_by_temporal_unsorted :
   let rows := [([(VStr [50;48;50;48;45;120]%N, true)], [VInt 0]);
                ([(VStr [50;48;50;48;45;48;49;45;48;50]%N, true)], [VInt 1]);
@@ -267,4 +260,35 @@ Example order_by_i2f_witness :
   map snd (order_by no_temporal
     [([(VInt 9007199254740993, true)], [VInt 0]); ([(VFloat 0x1p+53%float, true)], [VInt 1]); ([(VInt 9007199254740992, true)], [VInt 2])])
   = [[VInt 1]; [VInt 2]; [VInt 0]].
+Proof. vm_compute. reflexivity. Qed.
+
+(* ---------- ORDER BY on any keys: nested lists, maps, ids, several keys, ASC/DESC ---------- *)
+(* all rows carry the sort keys of one ORDER BY clause (same directions), and no key contains,
+   at any depth, a string the temporal parser accepts *)
+Definition row_ok (tp : toracle) (dirs : list bool) (r : srow) : Prop := keys_ok tp dirs (fst r).
+
+Theorem order_by_sorted_all tp dirs rows :
+  Forall (row_ok tp dirs) rows ->
+  StronglySorted (fun a b => cle (srow_cmp tp) a b = true) (order_by tp rows) /\
+  Permutation rows (order_by tp rows).
+Proof.
+  intros F. split; [|apply isort_perm].
+  apply (isort_sorted (srow_cmp tp) (row_ok tp dirs)); [| |exact F].
+  - intros a b Ha Hb.
+    exact (good_total (keys_cmp tp) (keys_ok tp dirs) (fst a) (fst b) Ha Hb (keys_cmp_good tp dirs (fst a) Ha)).
+  - intros a b d Ha Hb Hd.
+    exact (good_trans (keys_cmp tp) (keys_ok tp dirs) (fst a) (fst b) (fst d) Ha Hb Hd (keys_cmp_good tp dirs (fst a) Ha)).
+Qed.
+
+(* non-vacuity: a row with nested keys (a NaN inside a map inside a list, a null, a path) is ok *)
+Example row_ok_instance :
+  row_ok no_temporal [true; false]
+    ([(VList [VMap [([97]%N, VFloat nan)]; VNull; VPath [1%N] []], true); (VStr [50;48;50;48]%N, false)], []).
+Proof. split; [reflexivity|]. repeat constructor. Qed.
+(* the old witness of the repaired map ordering defect (K-C20-mapnan) is sorted now: 1.0, 2.0, NaN *)
+Example order_by_mapnan_witness :
+  map snd (order_by no_temporal
+    [([(VMap [([97]%N, VFloat 0x1p+1%float)], true)], [VInt 0]); ([(VMap [([97]%N, VFloat nan)], true)], [VInt 1]);
+     ([(VMap [([97]%N, VFloat 0x1p+0%float)], true)], [VInt 2])])
+  = [[VInt 2]; [VInt 0]; [VInt 1]].
 Proof. vm_compute. reflexivity. Qed.
